@@ -12,6 +12,7 @@ Definition show_err (e : err) : str :=
   | EMissing k => S_ "err missing " ++ hex k
   | EUnclosed p => S_ "err unclosed " ++ show_dec p
   | ECycle k => S_ "err cycle " ++ hex k
+  | ETooDeep k => S_ "err toodeep " ++ hex k
   | EExpr x => S_ "err expr " ++ hex x
   | ENeedEv x => S_ "needev " ++ hex x
   | EFromMissing _ => S_ "err from-missing"
